@@ -641,14 +641,16 @@ func (x *Exec) autoInvariants(fr *Frame, li *loopInfo, override map[*ssa.Phi]*Va
 func (x *Exec) loopEntry(fr *Frame, li *loopInfo, st *State) {
 	for i, c := range x.loopClauses(fr, li, "invariant") {
 		env := x.loopEnv(fr, li, st, nil)
-		t, err := x.evalBool(env, c.Expr)
-		if err != nil {
-			x.unsupported(fmt.Sprintf("%s loop#%d invariant: %v", fr.fn.Name(), li.ordinal, err))
-			continue
+		parts := conjuncts(c.Expr)
+		for pi, pe := range parts {
+			t, err := x.evalBool(env, pe)
+			if err != nil {
+				x.unsupported(fmt.Sprintf("%s loop#%d invariant: %v", fr.fn.Name(), li.ordinal, err))
+				continue
+			}
+			x.check(st, "invariant-entry", partName(fmt.Sprintf("%s:loop#%d:inv%d:entry", x.fname(fr), li.ordinal, i), pi, len(parts)), t,
+				clauseProps(fr, c), c.Text, fmt.Sprintf("%s:%d", c.File, c.Line))
 		}
-		x.flushEnvChecks(env, st, fmt.Sprintf("%s:loop#%d:inv%d:entry", x.fname(fr), li.ordinal, i), c)
-		x.check(st, "invariant-entry", fmt.Sprintf("%s:loop#%d:inv%d:entry", x.fname(fr), li.ordinal, i), t,
-			clauseProps(fr, c), c.Text, fmt.Sprintf("%s:%d", c.File, c.Line))
 	}
 }
 
@@ -685,15 +687,17 @@ func (x *Exec) loopBackEdge(fr *Frame, li *loopInfo, st *State, from *ssa.BasicB
 	}
 	for i, c := range x.loopClauses(fr, li, "invariant") {
 		env := x.loopEnv(fr, li, st, override)
-		t, err := x.evalBool(env, c.Expr)
-		if err != nil {
-			x.unsupported(fmt.Sprintf("%s loop#%d invariant: %v", fr.fn.Name(), li.ordinal, err))
-			continue
-		}
+		parts := conjuncts(c.Expr)
 		name := fmt.Sprintf("%s:loop#%d:inv%d:preserved", x.fname(fr), li.ordinal, i)
-		x.flushEnvChecks(env, st, name, c)
-		x.check(st, "invariant-preserved", name, t,
-			clauseProps(fr, c), c.Text, fmt.Sprintf("%s:%d", c.File, c.Line))
+		for pi, pe := range parts {
+			t, err := x.evalBool(env, pe)
+			if err != nil {
+				x.unsupported(fmt.Sprintf("%s loop#%d invariant: %v", fr.fn.Name(), li.ordinal, err))
+				continue
+			}
+			x.check(st, "invariant-preserved", partName(name, pi, len(parts)), t,
+				clauseProps(fr, c), c.Text, fmt.Sprintf("%s:%d", c.File, c.Line))
+		}
 	}
 	// variant
 	for i, c := range x.loopClauses(fr, li, "decreases") {
